@@ -24,7 +24,7 @@ from datetime import date, datetime, timedelta
 
 import vlib
 
-PROPS = ['Props/C16.v']
+PROPS = ['Props/C16.v', 'Props/TsMatcher.v']
 
 PASS, FAIL, UND = 1, 0, 2
 MONTHS = ['Jan', 'Feb', 'Mar', 'Apr', 'May', 'Jun', 'Jul', 'Aug', 'Sep',
@@ -51,6 +51,37 @@ P_SOH = YMD + r'(?P<hours>\d{2})h(?P<seconds>\d{4})s'
 # day of the year in a group called `day` (001..366); `month` and `day`
 # properties derive both (there is no `month` group)
 P_DOY = r'^(?P<year>\d{4})\.(?P<day>\d{3}) ' + HMS
+
+
+# `kubectl logs --prefix` style: a long prefix before the stamp, so the
+# pattern reaches well beyond the first 64 characters of the line
+P_KUBE = (r'^\[pod/\S+\] (?P<year>\d{4})-(?P<month>\d{2})-(?P<day>\d{2})T'
+          r'(?P<hours>\d{2}):(?P<minutes>\d{2}):(?P<seconds>\d+)Z')
+# patterns WITHOUT a leading ^: the library itself must anchor them at the
+# start of the line (re.match)
+P_U_STD = P_STD[1:]
+P_U_BRACKET = P_BRACKET[1:]
+
+
+def pod_prefix(t):
+    """ deterministic prefix whose length varies with the fields: the stamp
+    starts between column 29 and 73, so column 64 falls before, inside (at
+    every position of) and after it """
+    n = 18 + (t[5] * 7 + t[4] * 3 + t[2] + t[3]) % 45
+    return "[pod/" + ("frontend-7c9d8b6f5-x2k4q-" * 4)[:n] + "/app] "
+
+
+def render_kube(t):
+    return (pod_prefix(t) + f"{t[0]:04d}-{t[1]:02d}-{t[2]:02d}T{hms(t)}Z "
+            "GET /healthz 200")
+
+
+def render_unanch_ref(t):
+    # starts with the stamp; a bracketed stamp of the previous year follows
+    if t[0] < 2:
+        return None
+    return (f"{t[0]:04d}-{t[1]:02d}-{t[2]:02d} {hms(t)} retry of "
+            f"[{t[2]:02d}/{t[1]:02d}/{t[0] - 1:04d}:{hms(t)}] failed")
 
 
 def hms(t):
@@ -202,6 +233,17 @@ VARIANTS = {
         'render': [
             lambda t: f"{t[2]:02d}.{t[1]:02d}.{t[0]:04d} {hms(t)} parent"],
         'light': True},
+    'kube': {
+        'patterns': [P_KUBE], 'overrides': {}, 'fmt': None,
+        'render': [render_kube], 'light': True},
+    'unanch': {
+        # the bracket pattern comes first but only ever matches further into
+        # these lines: only a match AT THE START counts
+        'patterns': [P_U_BRACKET, P_U_STD], 'overrides': {}, 'fmt': None,
+        'render': [
+            lambda t: f"{t[0]:04d}-{t[1]:02d}-{t[2]:02d} {hms(t)} plain",
+            render_unanch_ref],
+        'embedded': True, 'light': True},
 }
 FIELDS = ['year', 'month', 'day', 'hours', 'minutes', 'seconds']
 YY_ONLY = ('yy', 'inh_yy')      # can only write years 2000..2099
@@ -431,6 +473,15 @@ def session_lines(rng, name, cur, since, extra_stamps=()):
     for txt in v.get('extra', lambda ts: [])(tup(since)):
         if rng.random() < 0.6:
             lines.append(('invalid', txt, None))
+    if v.get('embedded'):
+        # dateless lines with a timestamp further in (on / after / before the
+        # boundary): undecidable
+        for d in (since, shift(since, seconds=1), cur,
+                  shift(since, seconds=-1)):
+            if d is not None and rng.random() < 0.8:
+                lines.append(('undated', rng.choice(
+                    ["ERROR at ", "\t", "  ", "job 17 finished "])
+                    + v['render'][0](tup(d)), None))
     ts = tup(since)
     own = VARIANTS[name]['render'][0](ts) or "2024"
     # a line in some OTHER variant's format (for a subclass: its parent's)
@@ -507,6 +558,7 @@ def sessions(chk):
     currents += [tup(rand_dt(rng, datetime(3, 1, 1)))
                  for _ in range(6 if chk.quick else 60)]
     cases, wants, meta = [], [], []
+    pool = set()
     nontrivial = set()
     nviol = [0]
 
@@ -519,6 +571,7 @@ def sessions(chk):
         cur = datetime(*cur_t)
         since = spec_since(cur, kw)
         lines = session_lines(rng, name, cur, since, extra_stamps)
+        pool.update((name, x[1]) for x in lines)
         raws = [oracle(name, txt) for _c, txt, _t in lines]
         for (lc, txt, t), raw in zip(lines, raws):
             # generator's intention vs the oracle (harness sanity)
@@ -660,7 +713,7 @@ def sessions(chk):
         time.tzset()
     chk.coverage['distinct_nontrivial'] += len(nontrivial)
     chk.coverage['traces_validated_against_impl'] += len(cases)
-    return cases, wants, meta, viol
+    return cases, wants, meta, viol, classes, pool
 
 
 SESSION_PRE = """From SK Require Import Model.Dates Spec.Since Model.Since Gen.Exprs.
@@ -678,6 +731,124 @@ Definition run_spec (x : dt * Z * Z * list (option dt)) : jv :=
       JZ (spec_pass_count (secs cur) d h ls);
       JZ (spec_fail_count (secs cur) d h ls)].
 """
+
+MATCHER_PRE = """From SK Require Import Model.Dates Model.TsMatcher Gen.XTsmatcher.
+Open Scope string_scope.
+Open Scope Z_scope.
+Definition jdt (t : dt) : jv := JZs [yr t; mo t; dy t; hh t; mi t; ss t].
+(* [matched; 0 ok / 1 ValueError / 2 other error / 3 not matched; fields] *)
+Definition jstrp (r : strp) : jv :=
+  match r with
+  | SOk t => if valid_dt t then JL [JZ 1; JZ 0; jdt t]
+             else JL [JZ 1; JZ 1; JL []]
+  | SValueError => JL [JZ 1; JZ 1; JL []]
+  | SError => JL [JZ 1; JZ 2; JL []]
+  end.
+(* the programs extracted from the source, interpreted *)
+Definition run_extracted (pats : list (pat_out mobj)) : jv :=
+  match exec_init x_ts_init pats with
+  | Some (Some m) =>
+      if x_ts_matched (Some m)
+      then jstrp (eval_strptime (attr_of m) (group_of m) x_ts_strptime)
+      else JL [JZ 0; JZ 3; JL []]
+  | Some None => JL [JZ (if x_ts_matched (@None mobj) then 1 else 0); JZ 3;
+                     JL []]
+  | None => JL [JZ (-1)]
+  end.
+(* the hand-written model *)
+Definition run_tsmodel (pats : list (pat_out mobj)) : jv :=
+  match ts_result pats with
+  | Some m => jstrp (ts_strptime m)
+  | None => JL [JZ 0; JZ 3; JL []]
+  end.
+"""
+
+
+def coq_mobj(m, ov):
+    """ Coq term for a match object: values of the variant's override
+    properties on it, and its named groups as int() sees them """
+    if m is None:
+        return "None"
+    attrs = "; ".join(f'("{k}", {int(fn(m))})' for k, fn in sorted(
+        ov.items()))
+    gs = []
+    for k, val in sorted(m.groupdict().items()):
+        if val is None:
+            g = "GAbsent"
+        else:
+            try:
+                g = f"GInt {int(val)}" if int(val) >= 0 \
+                    else f"GInt ({int(val)})"
+            except ValueError:
+                g = "GNonInt"
+        gs.append(f'("{k}", {g})')
+    return f"Some (MO [{attrs}] [{'; '.join(gs)}])"
+
+
+def matcher_level(chk, classes, pool):
+    """ the REAL matcher class on a line (matched / strptime) against the
+    interpreted extracted programs and the hand-written matcher model; the
+    regex engine is the oracle: per pattern, re.match and re.search """
+    rng = chk.rng
+    items = sorted(pool, key=repr)
+    rng.shuffle(items)
+    # keep every variant represented
+    n = 1200 if chk.quick else 12000
+    per = max(1, n // len(VARIANTS))
+    chosen, count = [], {}
+    for name, txt in items:
+        if count.get(name, 0) < per:
+            chosen.append((name, txt))
+            count[name] = count.get(name, 0) + 1
+    cases, wants, meta = [], [], []
+    both = later = 0
+    for name, txt in chosen:
+        line = txt.decode('utf-8', 'backslashreplace') \
+            if isinstance(txt, bytes) else txt
+        ov = eff_overrides(name)
+        tbl = [(re.match(p, line), re.search(p, line))
+               for p in VARIANTS[name]['patterns']]
+        both += sum(1 for a, _b in tbl if a) > 1
+        later += any(a is None and b is not None for a, b in tbl)
+        cases.append("[" + "; ".join(
+            f"PO ({coq_mobj(a, ov)}) ({coq_mobj(b, ov)})" for a, b in tbl)
+            + "]")
+        try:
+            m = classes[name](line)
+            matched = m.matched
+            if matched is not True:
+                want = [1 if matched else 0, 3, []]
+            else:
+                try:
+                    want = [1, 0, list(tup(m.strptime))]
+                except (ValueError, OverflowError):
+                    want = [1, 1, []]
+                except Exception:       # pylint: disable=broad-except
+                    want = [1, 2, []]
+        except Exception:               # pylint: disable=broad-except
+            want = [-1, 9, []]
+        wants.append(want)
+        meta.append({'variant': name, 'line': line, 'impl': want,
+                     'layout': '[matched, 0 ok/1 ValueError/2 other/3 '
+                               'unmatched, fields]'})
+    chk.coverage['evaluations'] += len(cases)
+    chk.dist('matcher:lines', len(cases))
+    chk.dist('matcher:several-patterns-match', both)
+    chk.dist('matcher:match-only-further-in', later)
+    for runner, tag in (('run_extracted', 'ts_extracted'),
+                        ('run_tsmodel', 'ts_model')):
+        mism, errs = vlib.eval_cases(chk.work, tag, '', MATCHER_PRE, runner,
+                                     cases, wants, shard=150)
+        for e in errs:
+            chk.broken.append({'obligation': f'correspondence matcher '
+                               f'{runner} (coqc)', 'why': e})
+        for i, v in mism[:5]:
+            # a matcher-level difference is not yet a line decided wrongly:
+            # the sessions above look for that
+            chk.violation(f"matcher-{runner}-vs-impl variant="
+                          f"{meta[i]['variant']}", dict(meta[i], coq=v),
+                          witness=False)
+
 
 DATES_PRE = """From SK Require Import Model.Dates.
 Definition months : list Z := [1; 2; 3; 4; 5; 6; 7; 8; 9; 10; 11; 12].
@@ -801,6 +972,9 @@ def run(chk):
         "second-of-hour via `minutes` and `seconds` properties / day-of-year "
         "via `month` and `day` properties - all six keys are derived "
         "somewhere, with the raw group differing from the derived value; "
+        "a `kubectl logs --prefix` style matcher whose pattern reaches "
+        "beyond column 64 (stamp starting at columns 29..73) / patterns "
+        "without a leading ^ plus dateless lines with a stamp further in; "
         "two families of matchers that subclass one another and override "
         "`patterns`, driven parent->child->grandchild and child->parent in "
         "one process; several variants have their own "
@@ -817,7 +991,7 @@ def run(chk):
         "and the Coq spec.  evaluations = lines applied + calendar cases; "
         "non-trivial = distinct (variant, since instant, line fields) with "
         "the timestamp within 1 s of the boundary or not a real date")
-    cases, wants, meta, viol = sessions(chk)
+    cases, wants, meta, viol, classes, pool = sessions(chk)
     for runner, tag in (('run_model', 'sess_model'), ('run_spec',
                                                       'sess_spec')):
         mism, errs = vlib.eval_cases(chk.work, tag, '', SESSION_PRE, runner,
@@ -834,11 +1008,15 @@ def run(chk):
                                                layout='[since_secs, '
                                                'outcomes, pass, fail]'),
                      False)
+    matcher_level(chk, classes, pool)
     calendar_diff(chk)
     chk.assumptions += [
-        "the timestamp matcher (regex patterns, field override properties) "
-        "is an oracle: tabulated per line with plain `re` by the harness and "
-        "fed to the model as `option (six integers)`",
+        "the regex engine is an oracle: per pattern and line, re.match / "
+        "re.search tabulated by the harness with plain `re` (match object = "
+        "named groups as int() sees them + values of the variant's override "
+        "functions); which pattern wins and which source a field comes from "
+        "is the model's (Model/TsMatcher.v, tied to the source by "
+        "Props/TsMatcher.v)",
         "timestamps carry whole seconds and no tzinfo (the matcher builds "
         "datetime from six integer fields; DEFAULT_DATETIME_FORMAT has no "
         "%f/%z), so datetime comparison is comparison of "
